@@ -25,6 +25,13 @@
 //	                   forwarding): writes toward it block once the socket buffers are full
 //	FH                 the forwarder half-closes toward the proxy (the proxy reads EOF from upstream)
 //	FR                 the forwarder resets the proxy's connection (a blocked write fails)
+//	RFC                the proxy's reads from the client fail (not EOF); writes toward the client keep working
+//	PF:<c|s>:<H|D|R|P>:<n>  (configuration) a StreamProcessorFactory whose processor for that direction returns
+//	                   an error from the n-th Header / Data / RSTStream / PushPromise call
+//	GRPC               (configuration) the real h2/grpc adapter with a pass-through gRPC processor
+//	chg:<sid> shg:<sid>    HEADERS of a gRPC stream (content-type application/grpc, grpc-encoding gzip)
+//	cdbad:<sid> sdbad:<sid> DATA: a gRPC message flagged compressed whose payload is not gzip; cdok/sdok: a good one
+//	spp:<sid>:<pid>    PUSH_PROMISE from the server; sst cst SETTINGS; sga cga GOAWAY
 //	CE1 SE1            unknown frame type (processFrame error) from client / server
 //	CE2 SE2            malformed PING (ReadFrame error)
 //	CE3 SE3            HEADERS with an undecodable HPACK block
@@ -68,6 +75,7 @@ import (
 	"time"
 
 	"github.com/google/martian/v3/h2"
+	mgrpc "github.com/google/martian/v3/h2/grpc"
 	mlog "github.com/google/martian/v3/log"
 	"golang.org/x/net/http2"
 	"golang.org/x/net/http2/hpack"
@@ -86,8 +94,11 @@ type failConn struct {
 	failWrites atomic.Bool
 	stalled    atomic.Bool
 	readEOF    atomic.Bool
+	readErr    atomic.Bool
 	closed     atomic.Bool
 }
+
+var errInjectedRead = errors.New("injected read failure")
 
 var errInjected = errors.New("injected write failure")
 
@@ -105,14 +116,116 @@ func (c *failConn) Write(b []byte) (int, error) {
 }
 
 func (c *failConn) Read(b []byte) (int, error) {
+	if c.readErr.Load() {
+		return 0, errInjectedRead
+	}
 	if c.readEOF.Load() {
 		return 0, io.EOF
 	}
 	n, err := c.Conn.Read(b)
+	if err != nil && c.readErr.Load() {
+		return n, errInjectedRead
+	}
 	if err != nil && c.readEOF.Load() {
 		return n, io.EOF
 	}
 	return n, err
+}
+
+// failReads makes the proxy's (possibly pending) read from the client fail with an error that is
+// not EOF, while writes toward the client keep working.
+func (c *failConn) failReads() {
+	c.readErr.Store(true)
+	c.Conn.SetReadDeadline(time.Now())
+}
+
+// ---------------------------------------------------------------- stream processors
+
+// pfSpec: the processor of direction dir fails the n-th call of one method (counted over all streams).
+type pfSpec struct {
+	dir    h2.Direction
+	method byte // H D R P
+	n      int
+	mu     sync.Mutex
+	count  int
+}
+
+var errScripted = errors.New("scripted stream processor error")
+
+type scriptedProc struct {
+	sink h2.Processor
+	dir  h2.Direction
+	spec *pfSpec
+}
+
+func (p *scriptedProc) hit(m byte) error {
+	if p.spec.dir != p.dir || p.spec.method != m {
+		return nil
+	}
+	p.spec.mu.Lock()
+	defer p.spec.mu.Unlock()
+	p.spec.count++
+	if p.spec.count == p.spec.n {
+		return errScripted
+	}
+	return nil
+}
+
+func (p *scriptedProc) Data(d []byte, es bool) error {
+	if err := p.hit('D'); err != nil {
+		return err
+	}
+	return p.sink.Data(d, es)
+}
+func (p *scriptedProc) Header(h []hpack.HeaderField, es bool, pr http2.PriorityParam) error {
+	if err := p.hit('H'); err != nil {
+		return err
+	}
+	return p.sink.Header(h, es, pr)
+}
+func (p *scriptedProc) Priority(pr http2.PriorityParam) error { return p.sink.Priority(pr) }
+func (p *scriptedProc) RSTStream(c http2.ErrCode) error {
+	if err := p.hit('R'); err != nil {
+		return err
+	}
+	return p.sink.RSTStream(c)
+}
+func (p *scriptedProc) PushPromise(id uint32, h []hpack.HeaderField) error {
+	if err := p.hit('P'); err != nil {
+		return err
+	}
+	return p.sink.PushPromise(id, h)
+}
+
+type passGRPC struct{ sink mgrpc.Processor }
+
+func (p passGRPC) Header(h []hpack.HeaderField, es bool, pr http2.PriorityParam) error {
+	return p.sink.Header(h, es, pr)
+}
+func (p passGRPC) Message(d []byte, es bool) error { return p.sink.Message(d, es) }
+
+// factories builds the StreamProcessorFactories the script asks for: PF:<c|s>:<H|D|R|P>:<n> and GRPC.
+func factories(in []string) []h2.StreamProcessorFactory {
+	var fs []h2.StreamProcessorFactory
+	for _, op := range in {
+		f := strings.Split(op, ":")
+		switch {
+		case f[0] == "PF" && len(f) == 4:
+			spec := &pfSpec{dir: h2.ClientToServer, method: f[2][0], n: atoi(f[3])}
+			if f[1] == "s" {
+				spec.dir = h2.ServerToClient
+			}
+			fs = append(fs, func(_ *url.URL, sinks *h2.Processors) (h2.Processor, h2.Processor) {
+				return &scriptedProc{sink: sinks.ForDirection(h2.ClientToServer), dir: h2.ClientToServer, spec: spec},
+					&scriptedProc{sink: sinks.ForDirection(h2.ServerToClient), dir: h2.ServerToClient, spec: spec}
+			})
+		case f[0] == "GRPC":
+			fs = append(fs, mgrpc.AsStreamProcessorFactory(func(_ *url.URL, server, client mgrpc.Processor) (mgrpc.Processor, mgrpc.Processor) {
+				return passGRPC{server}, passGRPC{client}
+			}))
+		}
+	}
+	return fs
 }
 
 // halfClose makes the proxy's (possibly pending) read from the client report EOF.
@@ -264,7 +377,7 @@ type session struct {
 	panicked atomic.Bool
 }
 
-func newSession(T time.Duration, withForwarder bool) (*session, error) {
+func newSession(T time.Duration, withForwarder bool, spf []h2.StreamProcessorFactory) (*session, error) {
 	s := &session{T: T, quiet: 40 * time.Millisecond, closing: make(chan bool), returned: make(chan struct{}), srvUp: make(chan struct{})}
 	cert, pool, err := selfSigned()
 	if err != nil {
@@ -307,7 +420,7 @@ func newSession(T time.Duration, withForwarder bool) (*session, error) {
 	s.proxyEnd = &failConn{Conn: b}
 	s.cli = &endpoint{conn: a, activity: &s.activity}
 
-	cfg := &h2.Config{RootCAs: pool, AllowedHostsFilter: func(string) bool { return true }}
+	cfg := &h2.Config{RootCAs: pool, AllowedHostsFilter: func(string) bool { return true }, StreamProcessorFactories: spf}
 	target := inner.Addr().String()
 	if withForwarder {
 		f, err := newForwarder(target)
@@ -397,7 +510,7 @@ func atoi(s string) int { n, _ := strconv.Atoi(s); return n }
 func terminating(op string) bool {
 	for _, p := range strings.Split(op, "+") {
 		switch p {
-		case "CC", "SC", "SR", "CE1", "CE2", "CE3", "SE1", "SE2", "SE3", "CL", "badpre", "HC", "FH", "FR":
+		case "CC", "SC", "SR", "CE1", "CE2", "CE3", "SE1", "SE2", "SE3", "CL", "badpre", "HC", "FH", "FR", "RFC", "cdbad", "sdbad":
 			return true
 		}
 	}
@@ -474,6 +587,44 @@ func (s *session) issue(op string) {
 		})
 	case "cw", "sw":
 		s.side(f[0][0]).do(func(fr *http2.Framer) error { return fr.WriteWindowUpdate(uint32(arg(1)), uint32(arg(2))) })
+	case "chg", "shg": // gRPC stream: content-type application/grpc, grpc-encoding gzip
+		var b bytes.Buffer
+		e := hpack.NewEncoder(&b)
+		if f[0] == "chg" {
+			e.WriteField(hpack.HeaderField{Name: ":method", Value: "POST"})
+			e.WriteField(hpack.HeaderField{Name: ":scheme", Value: "https"})
+			e.WriteField(hpack.HeaderField{Name: ":path", Value: "/svc/m"})
+			e.WriteField(hpack.HeaderField{Name: ":authority", Value: "h"})
+		} else {
+			e.WriteField(hpack.HeaderField{Name: ":status", Value: "200"})
+		}
+		e.WriteField(hpack.HeaderField{Name: "content-type", Value: "application/grpc"})
+		e.WriteField(hpack.HeaderField{Name: "grpc-encoding", Value: "gzip"})
+		blk := b.Bytes()
+		s.side(f[0][0]).do(func(fr *http2.Framer) error {
+			return fr.WriteHeaders(http2.HeadersFrameParam{StreamID: uint32(arg(1)), BlockFragment: blk, EndHeaders: true})
+		})
+	case "cdbad", "sdbad": // a gRPC message flagged compressed whose payload is not gzip
+		s.side(f[0][0]).do(func(fr *http2.Framer) error {
+			return fr.WriteData(uint32(arg(1)), false, []byte{1, 0, 0, 0, 5, 'x', 'x', 'x', 'x', 'x'})
+		})
+	case "cdok", "sdok": // a well-formed uncompressed gRPC message
+		s.side(f[0][0]).do(func(fr *http2.Framer) error {
+			return fr.WriteData(uint32(arg(1)), false, []byte{0, 0, 0, 0, 3, 'a', 'b', 'c'})
+		})
+	case "spp":
+		s.side('s').do(func(fr *http2.Framer) error {
+			return fr.WritePushPromise(http2.PushPromiseParam{StreamID: uint32(arg(1)), PromiseID: uint32(arg(2)), BlockFragment: hpackOK, EndHeaders: true})
+		})
+	case "sst", "cst": // SETTINGS (not an ack): forwarded by the reader under destMu
+		s.side(f[0][0]).do(func(fr *http2.Framer) error {
+			return fr.WriteSettings(http2.Setting{ID: http2.SettingMaxConcurrentStreams, Val: 77})
+		})
+	case "sga", "cga": // GOAWAY
+		s.side(f[0][0]).do(func(fr *http2.Framer) error { return fr.WriteGoAway(0, http2.ErrCodeNo, []byte("bye")) })
+	case "RFC":
+		s.proxyEnd.failReads()
+	case "PF", "GRPC": // configuration, consumed before the session starts
 	case "cp", "sp":
 		s.side(f[0][0]).do(func(fr *http2.Framer) error { return fr.WritePing(false, [8]byte{1, 2, 3, 4, 5, 6, 7, 8}) })
 	case "CE1", "SE1":
@@ -619,7 +770,7 @@ func runScenario(in []string, T time.Duration) []string {
 			withFwd = true
 		}
 	}
-	s, err := newSession(T, withFwd)
+	s, err := newSession(T, withFwd, factories(in))
 	if err != nil {
 		return []string{"setup-failed"}
 	}
@@ -633,7 +784,7 @@ func runScenario(in []string, T time.Duration) []string {
 		for _, p := range strings.Split(op, "+") {
 			s.issue(p)
 		}
-		if terminating(op) || strings.Contains(op, "WFC") || strings.Contains(op, "ST") {
+		if terminating(op) || strings.Contains(op, "WFC") || strings.Contains(op, "ST") || strings.HasPrefix(op, "PF:") {
 			armed = true
 		}
 		if armed {
